@@ -147,7 +147,9 @@ def L(*vals):
 STR_PATS_BASIC = ['a', 'ab', 'a*', '*a', '*a*', '*', 'ia', 'iA*', 'i*b', 'i*aB*', '', '"a"', "'*'", '"a\'', "i'a\"", '"', "i'"]
 STR_PATS_MORE = ['b*', '*b', '*ab*', 'ab*', '*ba', 'iab', '**', 'i*', 'i', '*a*b', 'a*b']
 REGEX_PATS = ['?a', '?ab', 'i?a', '?^a', '?b$']
-REGEX_REWRITE = ['?.*a', '?a.*', '?.*a.*', '?.*', '?.*.*', '?.*a|b', '?a|b.*', '?.*?a', '?a\\.*', '?.*+a', 'i?.*A']
+REGEX_REWRITE = ['?.*a', '?a.*', '?.*a.*', '?.*', '?.*.*', '?.*a|b', '?a|b.*', '?.*?a', '?a\\.*', '?.*+a', 'i?.*A',
+                 # anchored wildcards are not redundant: `.` does not cross a line feed
+                 '?^.*a', '?a.*$', '?^.*a.*$', '?^a.*', '?.*a$']
 NUM_PATS = ['=1', '>1', '>=1', '<1', '<=1', '>-1', '=1.5', '>1.5', '<=0.5']
 
 
@@ -179,6 +181,8 @@ def families(tier='quick', seed=0):
         ['a', 'b'], ['a*', '*b'], ['*a*', 'b'], ['a', 'ia'], ['ia', 'ib*'], ['a*', '*a', '*a*', 'a'],
         ['a', ''], ['*', 'a'], ['?a', '?b'], ['?a', 'b'], ['i?a', 'i?b'], ['a', '?a', 'ib'],
         ['ab', 'b'], ['*ab', '*b'], ['a*', 'ab*'], ['a*', '*b', 'ic'], ['a*', '*b', '?c'], ['ia', 'ib', 'c', 'd'],
+        # needles of different kinds whose lengths are not ascending in written order (re-batching by the optimiser)
+        ['ab*', '*c', 'id'], ['abc*', '*c', '?q'],
     ]
     if tier != 'quick':
         lists += [['a', 'b', 'c'], ['a*', 'b*', '*c', '*d*'], ['ia*', 'i*b', 'c'], ['?a', '?b', '?c'], ['*a*', '*b*', '*ab*'],
@@ -240,6 +244,9 @@ def families(tier='quick', seed=0):
     add('dotted', 'n.f[0]', {'idents': {'A': M((K('n.f[0]'), S('a')))}, 'cond': ('id', 'A')})
     add('dotted', 'f[1].g', {'idents': {'A': M((K('f[1].g'), S('*a')))}, 'cond': ('id', 'A')})
     add('dotted', 'n.f or m.f', {'idents': {'A': M((K('n.f'), S('a'))), 'B': M((K('m.f'), L(S('b'), S('c*'))))}, 'cond': ('or', ('id', 'A'), ('id', 'B'))})
+    add('sequence', 'or3 same field', {'idents': {'A': M((K('f'), S('ab*'))), 'B': M((K('f'), S('*c'))), 'C': M((K('f'), S('*d*')))},
+                                       'cond': ('or', ('or', ('id', 'A'), ('id', 'B')), ('id', 'C'))})
+    add('sequence', 'seq3 same field', {'idents': {'A': ('seq', [M((K('f'), S('abc*'))), M((K('f'), S('*c'))), M((K('f'), S('*bd*')))])}, 'cond': ('id', 'A')})
     # E: conditions over identifiers
     A = M((K('f'), S('a')))
     B = M((K('g'), S('b*')))
@@ -379,7 +386,7 @@ MUST = {'single/"a\'', 'single/i\'a"', 'single/"',
         'quant-short/of2:a-only', 'quant-short/of0:a-only', 'quant-short/all:>1,<5', 'quant-ident/of(seq,2)', 'quant-ident/all(list)',
         'quant-ident/of(list,2)', 'quant-ident/not of(map,1)', 'cast-cond/int(f)>1', 'cast-cond/str(f)==str(g)', 'cast-cond/not flt(f)>=1.5',
         'regex-rewrite/?.*a', 'regex-rewrite/list', 'regex-rewrite/i?.*A', 'modifier/str(f) list', 'modifier/not(f) list', 'list-mixed/1,a',
-        'list-mixed/>1,<5'}
+        'list-mixed/>1,<5', 'list/ab*,*c,id', 'list/abc*,*c,?q', 'list-all/ab*,*c,id', 'list-of/ab*,*c,id|2'}
 
 
 def thin(tpl, quota, rnd):
